@@ -12,7 +12,7 @@ use refmodel::rng::{mix, Rng};
 
 /// kmer_pos_maps(k) against the enumerated reference, k = 1..=8 (quick) / 1..=10 (thorough)
 pub fn maps(ctx: &Ctx) -> Stats {
-    let kmax = ctx.pick(8usize, 10usize);
+    let kmax = ctx.pick(10usize, 10usize);
     let mut st = Stats::new();
     let mut per_k = Json::arr();
     for k in 1..=kmax {
